@@ -156,6 +156,9 @@ def all_sites(repo='/repo'):
     return out
 
 
+PREFIXES = tuple(k for k in os.environ.get('CAMPAIGN_PREFIX', '').split(',') if k)
+
+
 def apply_site(text, site):
     kind, l1, c1, l2, c2, rep = site
     lines = text.split('\n')
@@ -228,7 +231,7 @@ def run(stride, offset, workers=4, nproc=2):
     if os.path.exists(LOG):
         for l in open(LOG):
             done.add(json.loads(l)['index'])
-    todo = [(i, s) for i, s in enumerate(sites) if i % stride == offset and i not in done]
+    todo = [(i, s) for i, s in enumerate(sites) if i % stride == offset and i not in done and (not PREFIXES or s[0].startswith(PREFIXES))]
     print('%d sites, %d selected, %d workers' % (len(sites), len(todo), workers))
     os.makedirs(SCRATCH, exist_ok=True)
     import queue
